@@ -56,4 +56,11 @@ MUTANTS = [
  ('c06-ascii-add-replaces', 'C06', 'pymodbus/framer/ascii_framer.py', "        self._buffer += message", "        self._buffer = (self._buffer if len(self._buffer) < 40 else b'') + message"),
  ('c06-ascii-reset-on-incomplete', 'C06', 'pymodbus/framer/ascii_framer.py', "            else:\n                break\n\n    def buildPacket", "            else:\n                if len(self._buffer) > 30: self.resetFrame()\n                break\n\n    def buildPacket"),
  ('c06-tcp-advance-extra', 'C06', 'pymodbus/framer/socket_framer.py', "        length = self._hsize + self._header['len'] - 1\n        self._buffer = self._buffer[length:]", "        length = self._hsize + self._header['len'] - 1\n        self._buffer = self._buffer[length + (1 if length > 20 else 0):]"),
+ # ---- C07
+ ('c07-crc-lowbyte', 'C07', 'pymodbus/utilities.py', "    return computeCRC(data) == check", "    return (computeCRC(data) & 0xff) == (check & 0xff)"),
+ ('c07-lrc-7bit', 'C07', 'pymodbus/utilities.py', "    return computeLRC(data) == check", "    return (computeLRC(data) & 0x7f) == (check & 0x7f)"),
+ ('c07-rtu-check-true-on-exc', 'C07', 'pymodbus/framer/rtu_framer.py', "        except (IndexError, KeyError, struct.error):\n            return False", "        except (IndexError, KeyError, struct.error):\n            return len(self._buffer) >= 4"),
+ ('c07-crc-table', 'C07', 'pymodbus/utilities.py', "        result.append(crc)\n    return result", "        result.append(crc)\n    result[0x31] = result[0x30]\n    return result"),
+ ('c07-binary-nocrc-short', 'C07', 'pymodbus/framer/binary_framer.py', "            return checkCRC(data, self._header['crc'])\n        return False\n\n    def advanceFrame", "            return checkCRC(data, self._header['crc']) or len(data) == 5\n        return False\n\n    def advanceFrame"),
+ ('c07-ascii-lrc-skip-uid', 'C07', 'pymodbus/framer/ascii_framer.py', "            data = a2b_hex(self._buffer[start + 1:end - 2])\n            return checkLRC(data, self._header['lrc'])", "            data = a2b_hex(self._buffer[start + 1:end - 2])\n            return checkLRC(data, self._header['lrc']) or checkLRC(data[1:], self._header['lrc'])"),
 ]
